@@ -86,6 +86,54 @@ func genC04(kind string) func(r *core.Rng) any {
 					c.W = 0.8 * rm
 				}
 			}
+		case "closed-cornered":
+			// lens / teardrop / bulged polygon: the edges of a convex polygon replaced by outward quads or
+			// cubics; corners at every vertex, the path starts at one and the last curve lands exactly on it
+			// (the Close has zero length)
+			rad := r.Range(8, 40)
+			cx, cy := r.Range(-20, 20), r.Range(-20, 20)
+			for {
+				n := r.IntRange(2, 5)
+				ph := r.Range(0, 2*math.Pi)
+				var vs []Pt
+				for i := 0; i < n; i++ {
+					a := ph + (float64(i)+r.Range(-0.2, 0.2))*2*math.Pi/float64(n)
+					vs = append(vs, Pt{cx + rad*math.Cos(a), cy + rad*math.Sin(a)})
+				}
+				p = &canvas.Path{}
+				p.MoveTo(vs[0].X, vs[0].Y)
+				for i := 0; i < n; i++ {
+					a, b := vs[i], vs[(i+1)%n]
+					e := b.Sub(a)
+					out := Pt{X: e.Y, Y: -e.X} // outward for a counter-clockwise polygon
+					bulge := r.Range(0.15, 0.5)
+					if n > 2 && r.Chance(0.3) {
+						p.LineTo(b.X, b.Y)
+					} else if r.Bool() {
+						c1 := a.Lerp(b, 0.5).Add(out.Mul(bulge))
+						p.QuadTo(c1.X, c1.Y, b.X, b.Y)
+					} else {
+						c1, c2 := a.Lerp(b, 0.3).Add(out.Mul(bulge)), a.Lerp(b, 0.7).Add(out.Mul(bulge))
+						p.CubeTo(c1.X, c1.Y, c2.X, c2.Y, b.X, b.Y)
+					}
+				}
+				p.Close()
+				if math.Abs(refArea(p)) >= 1 {
+					break
+				}
+			}
+			if r.Bool() {
+				p = p.Reverse()
+			}
+			c.W = rad * r.LogRange(0.01, 0.15)
+			if subs, err := refSubs(p); err == nil {
+				if rm := minCurvatureRadius(subs); c.W > 0.4*rm {
+					c.W = 0.4 * rm
+				}
+			}
+			if c.Join == 5 {
+				c.Join = r.Intn(5) // ArcsClip between curved segments is its own class (curves-arcsclip)
+			}
 		case "closed-circles", "closed-ellipses", "closed-roundrects", "closed-quadchains", "closed-polygons", "closed-wide":
 			fam, ok := map[string]int{"closed-circles": 2, "closed-ellipses": 3, "closed-roundrects": 4, "closed-quadchains": 5}[kind]
 			if !ok {
@@ -286,6 +334,88 @@ func c04Check(ci any, o *core.Obs) {
 		return false
 	}
 	pts := bandPoints(r, src, 1.2*w, 72)
+	// probes around every vertex (the start point of a closed sub-path is one): the outer wedge of a
+	// join is only reached from there
+	{
+		probes := 0
+		for si := range src {
+			s := &src[si]
+			for k := range s.Segs {
+				if k == 0 && !s.Closed {
+					continue
+				}
+				if probes >= 48 {
+					break
+				}
+				v := s.Segs[k].P0
+				ph := r.Range(0, math.Pi/4)
+				for j := 0; j < 8; j++ {
+					rad := hw * core.PickF(r, []float64{0.3, 0.55, 0.8})
+					a := ph + float64(j)*math.Pi/4
+					pts = append(pts, Pt{v.X + rad*math.Cos(a), v.Y + rad*math.Sin(a)})
+					probes++
+				}
+			}
+		}
+	}
+	// inBevel: x lies in the triangle (vertex, vertex + hw*n1, vertex + hw*n2) spanned by the outer
+	// normals of the two segments meeting at the vertex nearest to x, shrunk by mrg. Every join type
+	// covers that triangle (a bevel is exactly it; round, mitre, arcs and their clipped forms contain it).
+	inBevel := func(s *geom.Sub, pos geom.Pos, x Pt, mrg float64) bool {
+		n := len(s.Segs)
+		var a, b *geom.Seg
+		if pos.T > 0.5 {
+			a = &s.Segs[pos.Seg]
+			if pos.Seg+1 < n {
+				b = &s.Segs[pos.Seg+1]
+			} else if s.Closed {
+				b = &s.Segs[0]
+			}
+		} else {
+			b = &s.Segs[pos.Seg]
+			if pos.Seg > 0 {
+				a = &s.Segs[pos.Seg-1]
+			} else if s.Closed {
+				a = &s.Segs[n-1]
+			}
+		}
+		if a == nil || b == nil {
+			return false
+		}
+		u, wv := a.Deriv(1), b.Deriv(0)
+		if u.Len() < 1e-9 || wv.Len() < 1e-9 {
+			return false
+		}
+		u, wv = u.Mul(1/u.Len()), wv.Mul(1/wv.Len())
+		cr := u.Cross(wv)
+		if math.Abs(cr) < 0.05 || u.Dot(wv) < -0.95 {
+			return false // nearly straight or a hairpin: no wedge to speak of
+		}
+		sgn := 1.0 // left turn: the outer side is on the right
+		if cr < 0 {
+			sgn = -1
+		}
+		v := b.P0
+		t1 := v.Add(Pt{X: u.Y * sgn, Y: -u.X * sgn}.Mul(hw))
+		t2 := v.Add(Pt{X: wv.Y * sgn, Y: -wv.X * sgn}.Mul(hw))
+		tri := [3]Pt{v, t1, t2}
+		area := t1.Sub(v).Cross(t2.Sub(v))
+		if math.Abs(area) < 1e-12 {
+			return false
+		}
+		for i := 0; i < 3; i++ {
+			p0, p1 := tri[i], tri[(i+1)%3]
+			e := p1.Sub(p0)
+			d := e.Cross(x.Sub(p0)) / e.Len()
+			if area < 0 {
+				d = -d
+			}
+			if d < mrg {
+				return false
+			}
+		}
+		return true
+	}
 	nIn, nOut := 0, 0
 	for _, x := range pts {
 		si, pos, d := geom.NearestOnSubs(x, src)
@@ -307,8 +437,11 @@ func c04Check(ci any, o *core.Obs) {
 				continue
 			}
 			if atVertex && !isOpenEnd && c.Join != 1 {
-				o.Count("skipped_join_wedge", 1)
-				continue
+				if !inBevel(s, pos, x, tolEff+m) {
+					o.Count("skipped_join_wedge", 1)
+					continue
+				}
+				o.Count("points_in_bevel_triangle", 1)
 			}
 			// a point near an open end with a butt cap may lie beyond the cut although its nearest point
 			// is on the segment interior only if the end is closer than hw; that cannot happen: the
@@ -434,6 +567,7 @@ func init() {
 			{Name: "closed-circles", Quick: 400, Thorough: 3000, Gen: genC04("closed-circles")},
 			{Name: "closed-roundrects", Quick: 400, Thorough: 3000, Gen: genC04("closed-roundrects")},
 			{Name: "closed-quadchains", Quick: 400, Thorough: 3000, Gen: genC04("closed-quadchains")},
+			{Name: "closed-cornered", Quick: 500, Thorough: 4000, Gen: genC04("closed-cornered"), Note: "closed contours of outward curves meeting at corners, starting at a corner with a zero-length Close"},
 			{Name: "offset-polygons", Quick: 500, Thorough: 4000, Gen: genC04("offset-polygons")},
 			{Name: "offset-curved", Quick: 500, Thorough: 4000, Gen: genC04("offset-curved")},
 			// The counts above are deliberately small: over 1.7M calibration cases two further genuine
